@@ -1,4 +1,11 @@
 import MpfVerif.DriverLoop
 import MpfVerif.Model.Light
-/-! Driver of the C09 model (light stack + software fade channels). -/
-def main : IO UInt32 := MpfVerif.runDriver MpfVerif.Light.driverStep MpfVerif.Light.init
+import MpfVerif.Model.BatchLight
+/-! Driver of the C09 models: light stack + software fade channels; lines starting with `B ` go to the batch model. -/
+def c09Step (s : MpfVerif.Light.DSt × MpfVerif.Batch.BSt) (line : String) :
+    (MpfVerif.Light.DSt × MpfVerif.Batch.BSt) × String :=
+  match line.splitOn " " with
+  | "B" :: rest => let (b, o) := MpfVerif.Batch.driverStep s.2 rest; ((s.1, b), o)
+  | _ => let (l, o) := MpfVerif.Light.driverStep s.1 line; ((l, s.2), o)
+
+def main : IO UInt32 := MpfVerif.runDriver c09Step (MpfVerif.Light.init, {})
